@@ -388,3 +388,47 @@ def load_known():
     if not os.path.exists(p):
         return {'findings': [], 'fixed': []}
     return json.load(open(p))
+
+
+# ------------------------------------------------------------------ extraction cross-check inside Coq
+def _zl(bs):
+    return '[' + ';'.join(str(b) for b in bs) + ']'
+
+
+def coq_crosscheck(tag, cases, model_outs, limit=60):
+    """Re-evaluate a sample of cases with vm_compute inside Coq and require the results the extracted OCaml code
+    printed (keeps extraction and the OCaml driver honest).  Supports I2S, MATCH, RERR lines.  Returns (n, error or '')."""
+    ex = []
+    step = max(1, len(cases) // limit)
+    for c, o in list(zip(cases, model_outs))[::step]:
+        f, g = c.split(' '), o.split(' ')
+        if o.startswith('?'):
+            continue
+        if f[0] == 'I2S' and g[0] == 'I2S':
+            w, hi, lo, ln, base, sign = (int(x) for x in f[1:7])
+            v = (hi << 32) | lo
+            hexs = g[1] if len(g) == 4 else ''
+            nul, r = g[-2], g[-1]
+            ex.append('FmtModel.int2str %d %d %d (%d) %s = (%s, %s, %s)' % (w, v, ln, base, 'true' if sign else 'false', _zl(unhx(hexs)), 'true' if nul == '1' else 'false', r))
+        elif f[0] == 'MATCH' and g[0] == 'MATCH':
+            n, d = int(f[3]), int(f[4])
+            nums = 'None' if n < 0 else '(Some %s)' % _zl([-99] * n)
+            res = g[1].split(':')
+            rn = 'None' if n < 0 else '(Some %s)' % _zl([int(x) for x in res[1].split(',') if x != ''] if len(res) > 1 else [])
+            ex.append('MatchModel.matchCommand %s%%N %s%%N %s (%d) = MatchModel.Res %s %s' % (_zl(unhx(f[1])), _zl(unhx(f[2])), nums, d, 'true' if res[0] == '1' else 'false', rn))
+        elif f[0] == 'RERR' and g[0] == 'RERR' and g[1].startswith('W'):
+            info = 'None' if f[2] == '-' else '(Some %s)' % _zl(unhx(f[2]))
+            ex.append('FmtModel.result_error (%d) (Glue.descz (%d)) %s Generated.gen_desc_max = %s' % (int(f[1]), int(f[1]), info, _zl(unhx(g[1][1:]))))
+    if not ex:
+        return 0, ''
+    d = os.path.join(BUILD, 'stmt')
+    os.makedirs(d, exist_ok=True)
+    fn = os.path.join(d, 'Cross_%s.v' % tag)
+    with open(fn, 'w') as fh:
+        fh.write('From Coq Require Import Bool List NArith ZArith.\nFrom M Require FmtModel MatchModel Glue Generated.\nImport ListNotations.\nOpen Scope Z_scope.\n')
+        for i, e in enumerate(ex):
+            fh.write('Example x%d : %s.\nProof. vm_compute. reflexivity. Qed.\n' % (i, e))
+    rc, out, err, _ = sh(['coqc', '-Q', COQ, 'M', fn], 600, cwd=d)
+    if rc != 0:
+        return len(ex), 'evaluation inside Coq disagrees with the extracted model: ' + ' '.join(err.decode(errors='replace').split())[:500]
+    return len(ex), ''
